@@ -157,6 +157,10 @@ for _p in ('C04', 'C05'):
 PROPS['C09']['quick'] = list(dict.fromkeys(PROPS['C09']['quick'] + ['core_blake2s_160_lsb_stone6']))
 PROPS['C13']['quick'] = list(dict.fromkeys(PROPS['C13']['quick'] + ['core_keccak_160_lsb_stone6']))
 
+# C16: the eval_oods_polynomial wrappers of the six other layouts (argument order of the DEEP evaluator call)
+PROPS['C16']['quick'] = list(dict.fromkeys(PROPS['C16']['quick'] + _LIGHT))
+PROPS['C16']['thorough'] = list(dict.fromkeys(PROPS['C16']['thorough'] + _LIGHT))
+
 # thorough tier: every hash / stone variant of the core unit for the properties whose code is cfg-dependent
 for _p in ('C01', 'C02', 'C04', 'C05', 'C07', 'C09', 'C13', 'C17', 'C18'):
     PROPS[_p]['thorough'] = list(dict.fromkeys(PROPS[_p]['thorough'] + VARIANTS))
